@@ -255,24 +255,31 @@ def extract_int_ladder(repo=None):
     if not ok:
         raise TranslateError('choose_int_dtype: acceptance test is %s'
                              % ast.unparse(test))
-    # how int_min / int_max are obtained: np.round(x)  -> "float" compare;
-    # int(np.round(x)) -> exact compare
-    exact = {}
+    # how int_min / int_max are obtained and compared:
+    #   np.round(x)                      -> "native"  (scalar's own type)
+    #   ... then np.float64(int_min)     -> "float64"
+    #   int(np.round(x)) / int(int_min)  -> "exact"
+    mode = {}
     for node in ast.walk(fn):
         if isinstance(node, ast.Assign) and len(node.targets) == 1 \
                 and isinstance(node.targets[0], ast.Name) \
                 and node.targets[0].id in ('int_min', 'int_max'):
+            nm_ = node.targets[0].id
             txt = ast.unparse(node.value).replace(' ', '')
-            idx = '0' if node.targets[0].id == 'int_min' else '1'
+            idx = '0' if nm_ == 'int_min' else '1'
             if txt == 'np.round(x_minmax[%s])' % idx:
-                exact[node.targets[0].id] = False
+                mode[nm_] = 'native'
             elif txt == 'int(np.round(x_minmax[%s]))' % idx:
-                exact[node.targets[0].id] = True
+                mode[nm_] = 'exact'
+            elif txt == 'np.float64(%s)' % nm_ and nm_ in mode:
+                mode[nm_] = 'float64'
+            elif txt == 'int(%s)' % nm_ and nm_ in mode:
+                mode[nm_] = 'exact'
             else:
                 raise TranslateError('choose_int_dtype: %s = %s'
-                                     % (node.targets[0].id, txt))
-    if set(exact) != {'int_min', 'int_max'} or \
-            exact['int_min'] != exact['int_max']:
+                                     % (nm_, txt))
+    if set(mode) != {'int_min', 'int_max'} or \
+            mode['int_min'] != mode['int_max']:
         raise TranslateError('choose_int_dtype: rounding not recognised')
     rungs = []
     for nm in ladder:
@@ -281,10 +288,10 @@ def extract_int_ladder(repo=None):
     if default != 'int':
         raise TranslateError('default dtype %s' % default)
     dinfo = np.iinfo(int)
-    return rungs, ('int64', int(dinfo.min), int(dinfo.max)), exact['int_min']
+    return rungs, ('int64', int(dinfo.min), int(dinfo.max)), mode['int_min']
 
 
-def int_ladder_lean(rungs, default, exact):
+def int_ladder_lean(rungs, default, mode):
     lines = [
         '/-',
         '  GENERATED by harness/ctmverif/stats_util.py from',
@@ -293,10 +300,9 @@ def int_ladder_lean(rungs, default, exact):
         '  Each rung is (numpy dtype name, iinfo.min, iinfo.max), in the',
         '  order the source tries them; `intLadderDefault` is the dtype used',
         '  when no rung accepts (Python `int` = int64).',
-        '  `intLadderExactCompare = true` iff the source converts the',
-        '  rounded bounds to Python ints before comparing them with the',
-        '  limits (otherwise the comparison happens in the floating-point',
-        '  type of the bounds).',
+        '  `intLadderCompare` says how the rounded bounds are compared with',
+        '  the limits: "native" = as numpy scalars of the stored type,',
+        '  "float64" = after np.float64(..), "exact" = as Python ints.',
         '-/',
         'namespace CTM.Generated',
         '',
@@ -310,20 +316,19 @@ def int_ladder_lean(rungs, default, exact):
                  '("%s", %s, %s)' % (default[0], lean_int(default[1]),
                                      lean_int(default[2])))
     lines.append('')
-    lines.append('def intLadderExactCompare : Bool := %s'
-                 % ('true' if exact else 'false'))
+    lines.append('def intLadderCompare : String := "%s"' % mode)
     lines.append('')
     lines.append('end CTM.Generated')
     return '\n'.join(lines) + '\n'
 
 
 def translate_int_ladder(ctx=None, repo=None):
-    rungs, default, exact = extract_int_ladder(repo)
+    rungs, default, mode = extract_int_ladder(repo)
     changed = write_if_changed(GEN_DIR / 'IntLadder.lean',
-                               int_ladder_lean(rungs, default, exact))
+                               int_ladder_lean(rungs, default, mode))
     if ctx is not None:
         ctx.log('IntLadder.lean %s' % ('rewritten' if changed else 'unchanged'))
         ctx.extra_cov['generated_int_ladder'] = {
             'rungs': [list(r) for r in rungs], 'default': list(default),
-            'exact_compare': exact}
-    return rungs, default, exact
+            'compare': mode}
+    return rungs, default, mode
